@@ -34,6 +34,10 @@ RULE = ("scripted steppers walking through prescribed state / observable sequenc
         "interactions (full matrices with/without offset, diagonal tables) whose diagonals differ only in late rows / only in "
         "early rows / nowhere; observables must be exactly the registered interactions with a non-constant diagonal (judged by "
         "the harness from all 2^n entries), n_bonds() must equal their number, output = direct autocorrelation over them. "
+        "isingbond: calculate_bond_autocorrelation and the tempering bond helper on real QmcIsingGraph samplers on 3..5-site "
+        "rings/stars/chains/random graphs (both edge orientations, mixed-sign J != 0, an edge on the two last variables, "
+        "duplicate edges); observable of edge (a,b,J) = +1 iff satisfied (equal spins for J<0, different for J>0), computed by "
+        "the harness from s[a], s[b], sign J on the states of an identically seeded clone. "
         "Non-trivial = all columns non-constant (oracle applies); distinct = distinct input line.")
 
 
@@ -41,7 +45,7 @@ def main(ck):
     if ck.lake_build(LEAN_TARGETS):
         ck.audit("QmcProps.C20", ["Qmc.C20." + t for t in THEOREMS])
     if ck.cargo_build(BINS):
-        for mode in ["custom", "vars", "prod", "temper", "real", "genbond", "edge"]:
+        for mode in ["custom", "vars", "prod", "temper", "real", "genbond", "isingbond", "edge"]:
             cases = ck.harness("c20", [mode])
             ck.correspond(mode, "drv_c20", cases)
     ck.assumptions += [
